@@ -4,7 +4,7 @@
 (* xtl::murmur2_x86 / murmur2_x64 / hash_bytes against Murmur.tla.          *)
 (*                                                                          *)
 (* Table line (ndjson, env TRACE):                                          *)
-(*  {"op":"H","szt":8,"c":[[bytes, seed, [obs, ...]], ...]}                 *)
+(*  {"op":"H","szt":8,"gen":0|1,"c":[[bytes, seed, [obs, ...]], ...]}       *)
 (*    bytes: the key; seed: four 16-bit limbs (least significant first);    *)
 (*    obs = [kind, align, fill, x86[2 limbs], x64[4], hash_bytes[4],        *)
 (*           generic[4]]: one call of each function with the key placed at  *)
@@ -19,7 +19,8 @@
 (*       equal to each other, and equal to what the map `seen` recorded     *)
 (*       when the same (bytes, seed) occurred earlier in the table.         *)
 (* The generic fallback detail::murmur_hash<N> is compared with Poly131     *)
-(* for short keys; a mismatch there is printed as DRIFT (advisory).         *)
+(* for short keys when the driver was built with it (gen = 1); a mismatch   *)
+(* there is printed as DRIFT (advisory).                                    *)
 (***************************************************************************)
 EXTENDS Murmur, Json, IOUtils, TLC
 
@@ -41,12 +42,12 @@ CaseOK(c, key, ref, first) ==
 
 FallbackDrift(c, poly) == \E k \in 1..Len(c[3]) : c[3][k][7] # poly
 
-HashCase(c, key, ref, first) ==
+HashCase(c, key, ref, first, gen) ==
     /\ IF CaseOK(c, key, ref, first) THEN TRUE
        ELSE PrintT(<<"REJECT", l, j, [x86 |-> ref[1], x64 |-> ref[2], hash_bytes |-> ref[3],
                                      seen_before |-> IF key \in DOMAIN seen THEN seen[key] ELSE <<>>]>>) /\ FALSE
     /\ seen' = IF key \in DOMAIN seen THEN seen ELSE (key :> first) @@ seen
-    /\ IF Len(c[1]) <= 48 /\ FallbackDrift(c, Limbs16(Poly131(c[1], FromLimbs16(c[2]))))
+    /\ IF gen = 1 /\ Len(c[1]) <= 48 /\ FallbackDrift(c, Limbs16(Poly131(c[1], FromLimbs16(c[2]))))
          THEN PrintT(<<"DRIFT", "detail::murmur_hash<N> fallback differs from Poly131 at line/case", l, j>>)
          ELSE TRUE
 
@@ -56,7 +57,7 @@ TNext ==
         /\ \/ /\ e.op = "Reset"
               /\ seen' = << >>
            \/ /\ e.op = "H"
-              /\ HashCase(e.c[j], <<e.c[j][1], e.c[j][2]>>, Reference(e, e.c[j]), Observed(e.c[j][3][1]))
+              /\ HashCase(e.c[j], <<e.c[j][1], e.c[j][2]>>, Reference(e, e.c[j]), Observed(e.c[j][3][1]), e.gen)
            \/ /\ e.op \notin {"H", "Reset"}
               /\ PrintT(<<"REJECT", l, j, [no_such_op |-> e.op]>>) /\ FALSE
               /\ UNCHANGED seen
